@@ -102,7 +102,7 @@ func C13(r *core.Report) {
 		"R2 after ReadAt / io.ReadFull / Read the buffer is used (or success is returned for a caller-provided buffer) only where the read is known complete: err == nil is known, or the count is compared with the buffer length, or the buffer is sliced by the count; a check that tolerates io.EOF / io.ErrUnexpectedEOF while the count is discarded is the classic way a truncated file turns into zero bytes and then into 'not found'; " +
 		"R3 error downgrade - inside the err != nil branch of a call to storage / index / decoder code, the function must not continue, break or return success unless the branch is guarded by a not-found or end-of-file test (an I/O error must not become 'not found', an empty result or a nil object). " +
 		"R5 ErrorSlice has no Unwrap / Is / As method: errors.Is(err, ErrNotFound) on a mixed list (one index failed to read, another epoch said not found) stays false. " +
-		"R6 NewManifest writes a fresh header only under a dominating test that the file size is 0, never because parsing what is there ended in io.EOF. Not decided: that every truncation offset lands on a checked read (follows if R1-R3 cover all reads; the site counts are in the evidence)."
+		"R6 NewManifest writes a fresh header only under a dominating test that the file size is 0, never because parsing what is there ended in io.EOF. R7 the HTTP ReaderAt adapter reports success only when the whole buffer was filled (the check made under C17.R4). Not decided: that every truncation offset lands on a checked read (follows if R1-R3 cover all reads; the site counts are in the evidence)."
 	r.Assumptions = []string{"io.ReaderAt contract: n < len(p) implies a non-nil error; io.ReadFull returns an error unless the buffer was filled", "bin.Decoder.Read is all-or-error (table entry)"}
 	p := r.Prog
 	fns, _, _ := c12Scope(r)
@@ -214,6 +214,7 @@ func C13(r *core.Report) {
 	r.Floor("C13.R3", 40)
 	c18ErrorSliceIsOpaque(r, "C13.R5")
 	c13InitOnlyWhenEmpty(r)
+	shortCopyIsError(r, "C13.R7")
 }
 
 // mentionsBeyondLen: n mentions obj other than as the argument of len()/cap().
